@@ -152,6 +152,17 @@ def schemas():
         'poss-body-here': ([M(a), a, L(b)], b),
         'poss-body-here2': ([M(Neg(a)), Neg(a), L(O('MaterialConditional', a, b))], O('Disjunction', a, b)),
         'poss-body-here3': ([a, L(O('MaterialConditional', a, b)), M(a)], b),
+        # an identity that holds at ANOTHER world than the predication it could rewrite
+        'ident-under-poss': ([M(P(IDENT, ca, cb)), Fa], M(Fb)),
+        'ident-under-poss2': ([M(P(IDENT, ca, cb)), M(Fa)], M(Fb)),
+        'ident-under-nec': ([L(P(IDENT, ca, cb)), M(Fa)], M(Fb)),
+        'ident-there-pred-here': ([M(O('Conjunction', P(IDENT, ca, cb), Ga)), Fa], Fb),
+        # nested forks with worlds made on both sides of the second fork: what one sibling sees is not what the other sees
+        'nested-fork-worlds': ([L(a), O('Disjunction', O('Conjunction', b, Neg(b)),
+                                        O('Conjunction', M(c), O('Disjunction', M(O('Conjunction', A(3), Neg(A(3)))), L(M(Neg(a))))))], A(4)),
+        'nested-fork-worlds2': ([L(a), O('Disjunction', O('Conjunction', M(c), O('Disjunction', L(M(Neg(a))), M(O('Conjunction', A(3), Neg(A(3)))))),
+                                         O('Conjunction', b, Neg(b)))], A(4)),
+        'nested-fork-worlds3': ([L(a), M(b), O('Disjunction', M(c), O('Disjunction', M(A(3)), L(M(Neg(a)))))], M(O('Conjunction', b, Neg(a)))),
         # a witness is needed at a world where some constant of the branch does not occur
         'wit-other-world': ([Fa, M(Q('Existential', x, Gx))], Gb),
         'wit-other-world2': ([Fa, Gb, M(Q('Existential', x, P(H2, x, ca)))], L(Fb)),
@@ -229,6 +240,15 @@ def systematic(prop_only=False):
                 for la, ta in ((a, 'a'), (Neg(a), 'na')):
                     for lb, tb in ((b, 'b'), (Neg(b), 'nb')):
                         add(f'{tag}:late-{ta}-{tb}', [lb, O('Disjunction', la, la)], S)
+    # the SAME sentence on many nodes of one branch (index buckets, caches and counters behave differently when full)
+    aa = O('Conjunction', a, a)
+    ava = O('Disjunction', a, a)
+    add('bulk:7a', [a] * 7, a)
+    add('bulk:8na', [Neg(a)] * 8, Neg(a))
+    add('bulk:conj', [O('Conjunction', aa, aa), O('Conjunction', aa, aa)], O('Disjunction', ava, ava))
+    add('bulk:conj-b', [O('Conjunction', aa, aa), O('Conjunction', aa, aa), b], O('Conjunction', O('Disjunction', ava, ava), b))
+    add('bulk:disj', [O('Disjunction', ava, ava)], O('Conjunction', O('Conjunction', aa, aa), aa))
+    add('bulk:mixed', [a, aa, a, O('Conjunction', aa, a), a], O('Conjunction', a, O('Conjunction', aa, aa)))
     if prop_only:
         return out
     for q in ('Existential', 'Universal'):
